@@ -66,67 +66,89 @@ Inductive mout :=
 | Hi (c : N)                             (* NameOwnerChanged ("" -> c's unique name) *)
 | Bye (c : N)                            (* NameOwnerChanged (c's unique name -> "") *)
 | Noc (name : bytes) (old new : N)       (* NameOwnerChanged of a well-known name; 0 = nobody *)
-| NoReply (to : N) (serial : N).         (* error NoReply sent to the caller of a pending call whose callee went away *)
+| NoReply (to : N) (serial : N)          (* error NoReply sent to the caller of a pending call whose callee went away *)
+| Refused (c : N) (serial : N).          (* error LimitsExceeded in reply to c's call with that serial *)
 
 Definition MON : N := 0.            (* recipient "every monitor"; connection ids of the run start at 1 *)
 
-(* state of the core: what bus_connection_disconnected / free_connection_data have to clean up.
-   - uniq: the number in the unique name ":1.<n>" of every registered connection (next_major/minor counter of bus/driver.c);
-   - names: owner queues of well-known names (first = primary owner), acq: BusConnectionData.services_owned
-     (every queue entry, in the order it was made);
+(* state of the core: every table of the bus that can mention a connection, i.e. what
+   bus_connection_disconnected (bus/connection.c) has to clean up.
+   - uniq: the number in the unique name ":1.<n>" of every registered, non-monitor connection
+     (next_major/minor counter of bus/driver.c);
+   - names: owner queues of well-known names (first = primary owner); acq: BusConnectionData.services_owned
+     (one record per queue entry, in the order it was made);
+   - rules: the matchmaker's rules as (owner, rule text), oldest first (BusConnectionData.n_match_rules is their count per owner);
    - pend: BusConnections.pending_replies as (caller, callee, serial);
-   - mons: BusConnections.monitors *)
+   - mons: BusConnections.monitors;
+   - completed: BusConnections.completed; all connections of the run have the bus's uid, so
+     [base_users + length completed] is both n_completed and the per-uid count of adjust_connections_for_uid;
+   - the three limits are constants of a run: <limit name="max_connections_per_user">,
+     <limit name="max_match_rules_per_connection">, and the number of registered connections that are
+     not part of the history (the monitor, the pair and the observer of the correspondence run: 4) *)
 Record mstate := mkM {
   m_next : N;
   m_uniq : list (N * N);
   m_names : list (bytes * list N);
   m_acq : list (N * bytes);
+  m_rules : list (N * bytes);
   m_pend : list (N * N * N);
-  m_mons : list N
+  m_mons : list N;
+  m_completed : list N;
+  m_maxuser : N;
+  m_maxrules : N;
+  m_baseusers : N
 }.
 
 Definition mem (c : N) (l : list N) : bool := existsb (N.eqb c) l.
 Definition unique_name (n : N) : bytes := S_unique_prefix ++ dec_of_N n.
+Definition not_c (c : N) (x : N) : bool := negb (x =? c).
+
+Definition set_names (k : mstate) names acq := mkM (m_next k) (m_uniq k) names acq (m_rules k) (m_pend k) (m_mons k) (m_completed k) (m_maxuser k) (m_maxrules k) (m_baseusers k).
+Definition set_rules (k : mstate) rules := mkM (m_next k) (m_uniq k) (m_names k) (m_acq k) rules (m_pend k) (m_mons k) (m_completed k) (m_maxuser k) (m_maxrules k) (m_baseusers k).
+Definition set_pend (k : mstate) pend := mkM (m_next k) (m_uniq k) (m_names k) (m_acq k) (m_rules k) pend (m_mons k) (m_completed k) (m_maxuser k) (m_maxrules k) (m_baseusers k).
+Definition set_mons (k : mstate) mons := mkM (m_next k) (m_uniq k) (m_names k) (m_acq k) (m_rules k) (m_pend k) mons (m_completed k) (m_maxuser k) (m_maxrules k) (m_baseusers k).
+Definition set_uniq (k : mstate) next uniq := mkM next uniq (m_names k) (m_acq k) (m_rules k) (m_pend k) (m_mons k) (m_completed k) (m_maxuser k) (m_maxrules k) (m_baseusers k).
+Definition set_completed (k : mstate) l := mkM (m_next k) (m_uniq k) (m_names k) (m_acq k) (m_rules k) (m_pend k) (m_mons k) l (m_maxuser k) (m_maxrules k) (m_baseusers k).
+
+(* n_completed = get_connections_for_uid (the uid of the run) *)
+Definition n_users (k : mstate) : N := m_baseusers k + nlen (m_completed k).
+Definition n_rules (k : mstate) (c : N) : N := nlen (filter (fun p => fst p =? c) (m_rules k)).
 
 (* bus_registry_lookup + primary owner; a unique name resolves to its registered, non-monitor connection *)
+Definition queue_of (names : list (bytes * list N)) (name : bytes) : list N :=
+  match find (fun p => bytes_eqb name (fst p)) names with Some (_, q) => q | None => [] end.
 Definition resolve (k : mstate) (d : bytes) : option N :=
   match find (fun p => bytes_eqb d (unique_name (snd p))) (m_uniq k) with
-  | Some (c, _) => if mem c (m_mons k) then None else Some c
-  | None =>
-      match find (fun p => bytes_eqb d (fst p)) (m_names k) with
-      | Some (_, c :: _) => Some c
-      | _ => None
-      end
+  | Some (c, _) => Some c
+  | None => match queue_of (m_names k) d with c :: _ => Some c | [] => None end
   end.
 
 Definition canonical (m : message) : bool := opt_is (str_field m DBUS_HEADER_FIELD_PATH) DBUS_PATH_DBUS_str.
-
-(* RequestName (s name, u flags) at the canonical path *)
-Definition is_request_name (m : message) : bool :=
+Definition driver_call (m : message) (member iface sig : bytes) : bool :=
   (msg_type m =? DBUS_MESSAGE_TYPE_METHOD_CALL) && canonical m
-  && opt_is (str_field m DBUS_HEADER_FIELD_MEMBER) S_RequestName
-  && opt_is_or_none (str_field m DBUS_HEADER_FIELD_INTERFACE) DBUS_INTERFACE_DBUS_str
-  && bytes_eqb (msg_signature m) S_su.
-Definition rn_name (m : message) : bytes := str_payload (msg_le m) (m_body m).
+  && opt_is (str_field m DBUS_HEADER_FIELD_MEMBER) member
+  && opt_is_or_none (str_field m DBUS_HEADER_FIELD_INTERFACE) iface
+  && bytes_eqb (msg_signature m) sig.
+
+(* RequestName (s name, u flags), AddMatch (s rule), BecomeMonitor ([], 0) at the canonical path *)
+Definition S_AddMatch : bytes := [65; 100; 100; 77; 97; 116; 99; 104].
+Definition S_s : bytes := [115].
+Definition is_request_name (m : message) : bool := driver_call m S_RequestName DBUS_INTERFACE_DBUS_str S_su.
+Definition is_add_match (m : message) : bool := driver_call m S_AddMatch DBUS_INTERFACE_DBUS_str S_s.
+Definition is_become_monitor (m : message) : bool :=
+  driver_call m S_BecomeMonitor S_Monitoring S_asu && bytes_eqb (m_body m) [0; 0; 0; 0; 0; 0; 0; 0].
+Definition arg_string (m : message) : bytes := str_payload (msg_le m) (m_body m).
 Definition rn_flags (m : message) : N :=
   u32_at (msg_le m) (m_body m) (N.to_nat (align_up (4 + u32_at (msg_le m) (m_body m) 0 + 1) 4)).
 
-(* BecomeMonitor ([], 0) at the canonical path (caller is privileged: same uid as the bus) *)
-Definition is_become_monitor (m : message) : bool :=
-  (msg_type m =? DBUS_MESSAGE_TYPE_METHOD_CALL) && canonical m
-  && opt_is (str_field m DBUS_HEADER_FIELD_MEMBER) S_BecomeMonitor
-  && opt_is_or_none (str_field m DBUS_HEADER_FIELD_INTERFACE) S_Monitoring
-  && bytes_eqb (msg_signature m) S_asu
-  && bytes_eqb (m_body m) [0; 0; 0; 0; 0; 0; 0; 0].
-
 (* bus_registry_acquire_service, restricted to flags 0 / DO_NOT_QUEUE on names nobody may replace
-   (ALLOW_REPLACEMENT / REPLACE_EXISTING are C04's subject and are not generated here) *)
+   (ALLOW_REPLACEMENT / REPLACE_EXISTING are C04's subject and are not generated here).
+   Result: (new table, c joined a queue, c became primary owner) *)
 Fixpoint acquire (names : list (bytes * list N)) (name : bytes) (c : N) (dnq : bool) : list (bytes * list N) * bool * bool :=
-  (* (new table, c joined a queue, c became primary owner) *)
   match names with
   | [] => ([(name, [c])], true, true)
   | (n, q) :: r =>
-      if bytes_eqb n name then
+      if bytes_eqb name n then
         match q with
         | [] => ((n, [c]) :: r, true, true)
         | _ => if mem c q || dnq then ((n, q) :: r, false, false) else ((n, q ++ [c]) :: r, true, false)
@@ -134,38 +156,31 @@ Fixpoint acquire (names : list (bytes * list N)) (name : bytes) (c : N) (dnq : b
       else let '(r', j, o) := acquire r name c dnq in ((n, q) :: r', j, o)
   end.
 
-(* bus_service_remove_owner for every entry of services_owned, last first *)
-Fixpoint release_names (names : list (bytes * list N)) (c : N) (owned_rev : list bytes) : list (bytes * list N) * list (N * mout) :=
-  match owned_rev with
+(* bus_service_remove_owner (service, connection): the connection's entry leaves the queue; if it was the
+   primary owner the next one takes over (NameOwnerChanged old -> new), or the name disappears (old -> "") *)
+Fixpoint release_one (names : list (bytes * list N)) (c : N) (name : bytes) : list (bytes * list N) * list (N * mout) :=
+  match names with
+  | [] => ([], [])
+  | (n, q) :: t =>
+      if bytes_eqb name n then
+        ((n, filter (not_c c) q) :: t,
+         match q with
+         | h :: _ => if h =? c then [(MON, Noc n c (match filter (not_c c) q with h' :: _ => h' | [] => 0 end))] else []
+         | [] => []
+         end)
+      else let '(t', o) := release_one t c name in ((n, q) :: t', o)
+  end.
+
+Fixpoint release_names (names : list (bytes * list N)) (c : N) (owned : list bytes) : list (bytes * list N) * list (N * mout) :=
+  match owned with
   | [] => (names, [])
   | name :: r =>
-      let step :=
-        (fix go (l : list (bytes * list N)) : list (bytes * list N) * list (N * mout) :=
-           match l with
-           | [] => ([], [])
-           | (n, q) :: t =>
-               if bytes_eqb n name then
-                 match q with
-                 | h :: q' =>
-                     if h =? c then
-                       match q' with
-                       | [] => (t, [(MON, Noc n c 0)])                  (* the name disappears *)
-                       | h' :: _ => ((n, q') :: t, [(MON, Noc n c h')])  (* the next in the queue takes over *)
-                       end
-                     else ((n, filter (fun x => negb (x =? c)) q) :: t, [])   (* a waiting entry is dropped silently *)
-                 | [] => ((n, q) :: t, [])
-                 end
-               else let '(t', o) := go t in ((n, q) :: t', o)
-           end) in
-      let '(names1, o1) := step names in
+      let '(names1, o1) := release_one names c name in
       let '(names2, o2) := release_names names1 c r in
       (names2, o1 ++ o2)
   end.
 
-Definition owned_rev (k : mstate) (c : N) : list bytes := rev (map snd (filter (fun p => fst p =? c) (m_acq k))).
-Definition forget_conn (k : mstate) (c : N) (names : list (bytes * list N)) (mons : list N) : mstate :=
-  mkM (m_next k) (filter (fun p => negb (fst p =? c)) (m_uniq k)) names (filter (fun p => negb (fst p =? c)) (m_acq k))
-      (m_pend k) mons.
+Definition owned (k : mstate) (c : N) : list bytes := map snd (filter (fun p => fst p =? c) (m_acq k)).
 
 (* bus_connections_check_reply: the first entry (callee = sender, caller = recipient, serial) goes *)
 Fixpoint check_reply (l : list (N * N * N)) (callee caller serial : N) : list (N * N * N) :=
@@ -177,15 +192,41 @@ Fixpoint check_reply (l : list (N * N * N)) (callee caller serial : N) : list (N
 Definition expect_reply (l : list (N * N * N)) (caller callee serial : N) : list (N * N * N) :=
   if existsb (fun p => match p with (a, b, s) => (a =? caller) && (b =? callee) && (s =? serial) end) l then l
   else (caller, callee, serial) :: l.
-Definition set_pend (k : mstate) (p : list (N * N * N)) : mstate := mkM (m_next k) (m_uniq k) (m_names k) (m_acq k) p (m_mons k).
 
-(* bus_connection_drop_pending_replies (run by free_connection_data after a disconnect, and by bus_connection_be_monitor):
-   entries whose CALLER is c are dropped (that includes calls c made to itself); the callers of the
-   remaining entries whose CALLEE is c get a NoReply error *)
+(* bus_connection_drop_pending_replies (last thing bus_connection_disconnected does; also run by
+   bus_connection_be_monitor): entries whose CALLER is c are dropped — that includes calls c made to itself —;
+   the callers of the remaining entries whose CALLEE is c get a NoReply error *)
 Definition drop_pending (l : list (N * N * N)) (c : N) : list (N * N * N) * list (N * mout) :=
   let kept := filter (fun p => match p with (a, b, _) => negb (a =? c) && negb (b =? c) end) l in
   let errs := flat_map (fun p => match p with (a, b, s) => if negb (a =? c) && (b =? c) then [(MON, NoReply a s)] else [] end) l in
   (kept, errs).
+
+(* ---- the teardown steps, in the order of bus_connection_disconnected --------------------------- *)
+(* 1. bus_matchmaker_disconnected: the connection's match rules go *)
+Definition td_rules (k : mstate) (c : N) : mstate := set_rules k (filter (fun p => not_c c (fst p)) (m_rules k)).
+(* 2. while ((service = _dbus_list_get_last (&d->services_owned))) bus_service_remove_owner: every queue entry
+      goes, last made first; the unique name is the first entry of services_owned, hence the last to go *)
+Definition td_names (k : mstate) (c : N) (order : list bytes) (registered : bool) : mstate * list (N * mout) :=
+  let '(names, o) := release_names (m_names k) c order in
+  (set_uniq (set_names k names (filter (fun p => not_c c (fst p)) (m_acq k))) (m_next k) (filter (fun p => not_c c (fst p)) (m_uniq k)),
+   o ++ (if registered then [(MON, Bye c)] else [])).
+(* 3. link_in_monitors *)
+Definition td_monitor (k : mstate) (c : N) : mstate := set_mons k (filter (not_c c) (m_mons k)).
+(* 4. link_in_connection_list: completed list, n_completed, adjust_connections_for_uid (-1) *)
+Definition td_lists (k : mstate) (c : N) : mstate := set_completed k (filter (not_c c) (m_completed k)).
+(* 5. bus_connection_drop_pending_replies *)
+Definition td_pending (k : mstate) (c : N) : mstate * list (N * mout) :=
+  let '(pend, errs) := drop_pending (m_pend k) c in (set_pend k pend, errs).
+
+(* bus_connection_disconnected *)
+Definition mini_disconnect (k : mstate) (c : N) (active : bool) : mstate * list (N * mout) :=
+  let registered := mem c (map fst (m_uniq k)) in        (* still has its unique name: active and not a monitor *)
+  let k1 := td_rules k c in
+  let '(k2, o2) := td_names k1 c (rev (owned k1 c)) registered in
+  let k3 := td_monitor k2 c in
+  let k4 := td_lists k3 c in
+  let '(k5, o5) := td_pending k4 c in
+  (k5, o2 ++ o5).
 
 (* bus_dispatch *)
 Definition mini_dispatch (k : mstate) (c : N) (active : bool) (m : message) : mstate * list (N * mout) * verdict :=
@@ -201,22 +242,29 @@ Definition mini_dispatch (k : mstate) (c : N) (active : bool) (m : message) : ms
       if bytes_eqb d DBUS_SERVICE_DBUS_str then
         if active then
           if is_request_name m then
-            let '(names, joined, owner) := acquire (m_names k) (rn_name m) c (negb (N.land (rn_flags m) DBUS_NAME_FLAG_DO_NOT_QUEUE =? 0)) in
-            (mkM (m_next k) (m_uniq k) names (if joined then m_acq k ++ [(c, rn_name m)] else m_acq k) (m_pend k) (m_mons k),
-             seen :: (if owner then [(MON, Noc (rn_name m) 0 c)] else []), VNone)
+            let '(names, joined, owner) := acquire (m_names k) (arg_string m) c (negb (N.land (rn_flags m) DBUS_NAME_FLAG_DO_NOT_QUEUE =? 0)) in
+            (set_names k names (if joined then m_acq k ++ [(c, arg_string m)] else m_acq k),
+             seen :: (if owner then [(MON, Noc (arg_string m) 0 c)] else []), VNone)
+          else if is_add_match m then
+            (* bus_driver_handle_add_match: the limit is tested before the rule is parsed; rules of the run parse *)
+            if m_maxrules k <=? n_rules k c then (k, [seen; (MON, Refused c (msg_serial m))], VNone)
+            else (set_rules k (m_rules k ++ [(c, arg_string m)]), [seen], VNone)
           else if is_become_monitor m then
-            (* bus_connection_be_monitor: every name goes, first acquired first (the unique name is the first) *)
-            let '(names, o) := release_names (m_names k) c (rev (owned_rev k c)) in
-            (* "it isn't allowed to reply, and it is no longer relevant whether it receives replies" *)
-            let '(pend, errs) := drop_pending (m_pend k) c in
-            (set_pend (forget_conn k c names (c :: m_mons k)) pend, seen :: (MON, Bye c) :: o ++ errs, VNone)
+            (* bus_connection_be_monitor: every name goes, first acquired first (the unique name is the first);
+               its match rules go; it joins the monitors; "it isn't allowed to reply, and it is no longer relevant
+               whether it receives replies".  It stays in the completed list and in the per-uid count. *)
+            let '(k2, o2) := td_names k c (owned k c) false in
+            let k3 := td_rules k2 c in
+            let '(k5, o5) := td_pending (set_mons k3 (c :: m_mons k3)) c in
+            (k5, seen :: (MON, Bye c) :: o2 ++ o5, VNone)
           else (k, [seen], VNone)               (* the driver answers (a second Hello gets an error) *)
         else if is_hello m then
           (* bus_context_check_security_policy lets it through; bus_driver_handle_message:
-             Hello is found at any path, in_args "" must equal the signature *)
-          if bytes_eqb (msg_signature m) []
-          then (mkM (m_next k + 1) (m_uniq k ++ [(c, m_next k)]) (m_names k) (m_acq k) (m_pend k) (m_mons k), [seen; (MON, Hi c)], VComplete)
-          else (k, [seen], VNone)               (* InvalidArgs *)
+             Hello is found at any path, in_args "" must equal the signature; bus_driver_handle_hello:
+             bus_connections_check_limits (max_connections_per_user) before anything is changed *)
+          if negb (bytes_eqb (msg_signature m) []) then (k, [seen], VNone)               (* InvalidArgs *)
+          else if m_maxuser k <=? n_users k then (k, [seen; (MON, Refused c (msg_serial m))], VNone)   (* LimitsExceeded: stays incomplete *)
+          else (set_completed (set_uniq k (m_next k + 1) (m_uniq k ++ [(c, m_next k)])) (m_completed k ++ [c]), [seen; (MON, Hi c)], VComplete)
         else (k, [seen], VNone)                 (* AccessDenied: "other than Hello without being registered" *)
       else if active then
         (* routed: only the pending-reply bookkeeping of bus_context_check_security_policy is modelled
@@ -235,14 +283,6 @@ Definition mini_dispatch (k : mstate) (c : N) (active : bool) (m : message) : ms
       else (k, [seen], VClose)                  (* "clients must talk to bus driver first" *)
   end.
 
-(* bus_connection_disconnected, then free_connection_data *)
-Definition mini_disconnect (k : mstate) (c : N) (active : bool) : mstate * list (N * mout) :=
-  let is_mon := mem c (m_mons k) in
-  let '(names, o) := if active && negb is_mon then release_names (m_names k) c (owned_rev k c) else (m_names k, []) in
-  let '(pend, errs) := drop_pending (m_pend k) c in
-  (set_pend (forget_conn k c names (filter (fun x => negb (x =? c)) (m_mons k))) pend,
-   o ++ (if active && negb is_mon then [(MON, Bye c)] else []) ++ errs).
-
 (* ---- handshake ---------------------------------------------------------------- *)
 Definition S_EXTERNAL : bytes := [69; 88; 84; 69; 82; 78; 65; 76].
 
@@ -250,7 +290,7 @@ Definition S_EXTERNAL : bytes := [69; 88; 84; 69; 82; 78; 65; 76].
    client is a local process of the same uid; GUID left empty (the check strips it) *)
 Definition mini_env (uid : N) : env :=
   mkEnv (mkCreds (Some uid) (Some 1) None) (Some [S_EXTERNAL]) [] true true uid
-        (fun _ => None) default_context false (fun _ => None) (fun _ => []) (fun _ => None).
+        (fun _ => None) default_context false (fun _ => None) (fun _ _ => []) (fun _ => None).
 
 Definition mini_auth_feed (uid : N) (a : auth) (d : bytes) : auth * bytes * averdict :=
   match Server.step (mini_env uid) a (Server.Feed d) with
@@ -274,7 +314,9 @@ Definition mini_ops (uid : N) : ops auth mstate mout :=
 
 (* [base]: the number the bus will put into the next unique name (4 on a fresh daemon of the
    correspondence run: the monitor, the pair and the observer come first) *)
-Definition mini_core0 (base : N) : mstate := mkM base [] [] [] [] [].
+(* limits of the correspondence run's configurations are passed in; 4 registered connections are not part of the history *)
+Definition mini_core (base maxuser maxrules : N) : mstate := mkM base [] [] [] [] [] [] [] maxuser maxrules 4.
+Definition mini_core0 (base : N) : mstate := mini_core base 256 512.
 Definition mini_init_at (base : N) : state auth mstate := init (mini_core0 base).
 Definition mini_init : state auth mstate := mini_init_at 4.
 
@@ -286,3 +328,7 @@ Definition mini_run (uid : N) (cf : cfg) (h : list Bus.event) : list (list (out 
    bus-side events with their outputs out) *)
 Definition mini_env_run (uid : N) (cf : cfg) (h : list cevent) : list (list (Bus.event * list (out mout))) :=
   snd (env_run (mini_ops uid) cf (mkE mini_init []) h).
+
+(* with the two limits of the core given (the driver's `script2` command) *)
+Definition mini_env_run_lim (uid : N) (cf : cfg) (maxuser maxrules : N) (h : list cevent) : list (list (Bus.event * list (out mout))) :=
+  snd (env_run (mini_ops uid) cf (mkE (init (mini_core 4 maxuser maxrules)) []) h).
